@@ -2,6 +2,7 @@ package main
 
 import (
 	"fmt"
+	"time"
 	"go/constant"
 	"go/token"
 	"go/types"
@@ -89,16 +90,24 @@ type Interp struct {
 	tier      string
 	feasCache map[string]bool
 	pruneAll  bool
+	trivialN    int
+	harnessFn   map[*ssa.Function]bool
+	recvTotal   int
+	sendTotal   int
+	deadline    time.Time
 	huntNext    bool
 	pendingHunt []int
 }
 
 type accEntry struct {
-	obj   *Object
-	slot  int
-	write bool
-	gor   int
-	guard *Term
+	obj     *Object
+	slot    int
+	write   bool
+	gor     int
+	guard   *Term
+	spawned int // goroutines started so far (main entries)
+	recvd   int // join tokens received so far (main entries)
+	site    string
 }
 
 type mathCall struct{ args []*Term; res *Term }
@@ -109,11 +118,63 @@ func NewInterp(prog *ssa.Program, cfg Config, ts *TermStore, sol *Solver) *Inter
 		forced: map[int]int{}, forcedSite: map[int]string{}, taken: map[int]int{}, decSite: map[int]string{}, symCount: map[string]int{}, symbols: map[string]*Term{}, reached: map[string]bool{},
 		mathCalls: map[string][]mathCall{}, funcsSeen: map[string]int{}, stubs: map[string]bool{}, known: map[string]bool{},
 		summaries: map[string]bool{}, initDone: map[*ssa.Package]bool{}, nextObj: 1,
-		hooks: map[string]func(*Interp, []Value) []Value{}, lockState: map[string]int{}}
+		hooks: map[string]func(*Interp, []Value) []Value{}, lockState: map[string]int{}, harnessFn: map[*ssa.Function]bool{}}
 }
 
 func (in *Interp) logAccess(o *Object, slot int, write bool) {
-	in.acclog = append(in.acclog, accEntry{o, slot, write, in.curGor, in.guardTerm()})
+	in.acclog = append(in.acclog, accEntry{o, slot, write, in.curGor, in.guardTerm(), in.nextGor, in.recvTotal, ""})
+}
+
+type raceConflict struct {
+	a, b accEntry
+}
+
+// findRaces: conflicting accesses (same cell, at least one write) by two different goroutine
+// instances, or by the spawning goroutine between a spawn and the join, on objects that the
+// accessing goroutine did not allocate itself.  Every interleaving of the goroutines is covered
+// because no ordering between them is assumed (two-thread reduction over the recorded footprints).
+func (in *Interp) findRaces() []raceConflict {
+	type key struct {
+		o *Object
+		s int
+	}
+	byCell := map[key][]accEntry{}
+	for _, e := range in.acclog {
+		if e.obj.gor == e.gor && e.gor != 0 {
+			continue // private to the goroutine that allocated it
+		}
+		byCell[key{e.obj, e.slot}] = append(byCell[key{e.obj, e.slot}], e)
+	}
+	var out []raceConflict
+	seen := map[string]bool{}
+	for k, es := range byCell {
+		for i := 0; i < len(es); i++ {
+			for j := i + 1; j < len(es); j++ {
+				a, b := es[i], es[j]
+				if a.gor == b.gor || (!a.write && !b.write) {
+					continue
+				}
+				if a.gor == 0 || b.gor == 0 {
+					m, g := a, b
+					if b.gor == 0 {
+						m, g = b, a
+					}
+					// main access is ordered before goroutine g if g was not yet spawned, and after
+					// it if all spawned goroutines have been joined
+					if m.spawned < g.gor || (m.recvd >= m.spawned && m.spawned >= g.gor) {
+						continue
+					}
+				}
+				id := fmt.Sprintf("%d:%d:%d:%d", k.o.id, k.s, a.gor, b.gor)
+				if seen[id] {
+					continue
+				}
+				seen[id] = true
+				out = append(out, raceConflict{a, b})
+			}
+		}
+	}
+	return out
 }
 
 func (in *Interp) guardTerm() *Term { return in.ts.And(in.guards...) }
@@ -268,7 +329,8 @@ func (in *Interp) site(instr ssa.Instruction) string {
 func (in *Interp) obligation(label, kind string, cond *Term) {
 	if cond.IsTrue() {
 		if kind == "assert" {
-			in.emit(&Obligation{Harness: in.harness, Label: label, Kind: kind, Result: "unsat", Solver: "trivial", Key: "trivial:" + label, PathID: in.pathID})
+			in.trivialN++
+			in.emit(&Obligation{Harness: in.harness, Label: label, Kind: kind, Result: "unsat", Solver: "trivial", Key: fmt.Sprintf("trivial:%s:%s:%d", label, in.pathID, in.trivialN), PathID: in.pathID})
 		}
 		return
 	}
@@ -321,6 +383,15 @@ func (in *Interp) fillScript(ob *Obligation, q []*Term) {
 
 // implicit obligation (bounds, nil, div by zero, explicit panic)
 func (in *Interp) implicitFail(what string, okCond *Term) {
+	if in.summaries["NoKernelImplicit"] {
+		// wrapper-level harnesses: panics raised by kernel code itself (model source files) are
+		// assumed away; panics in generated wrappers, the array library and sim are obligations
+		st := in.site(in.cur)
+		if strings.HasPrefix(st, "models/") && !strings.Contains(st, "generated_") && !strings.Contains(st, "zz_") {
+			in.assume(okCond)
+			return
+		}
+	}
 	if in.summaries["NoImplicit"] {
 		// this harness decides its named assertions only; panics are assumed away here and are the
 		// business of its sibling harness (stated in its doc)
